@@ -45,28 +45,34 @@ func (pattern glob) Match(str string) bool {
 	var starIdx, matchIdx int = -1, -1
 
 	for j < len(str) {
-		if i < len(pattern) && (pattern[i] == str[j] || pattern[i] == '\\' && i+1 < len(pattern) && pattern[i+1] == str[j]) {
-			// characters match or if there's an escaped character that matches
-			if pattern[i] == '\\' {
-				// skip the escape character
-				i++
+		if i < len(pattern) && pattern[i] == '\\' {
+			// an escape sequence stands for the (literal) character that follows the backslash
+			if i+1 < len(pattern) && pattern[i+1] == str[j] {
+				i += 2
+				j++
+				continue
 			}
-			i++
-			j++
 		} else if i < len(pattern) && pattern[i] == '*' {
 			// there's a * wildcard in the pattern
 			starIdx = i
 			matchIdx = j
 			i++
-		} else if starIdx != -1 {
-			// there's a previous * wildcard, backtrack
-			i = starIdx + 1
-			matchIdx++
-			j = matchIdx
-		} else {
+			continue
+		} else if i < len(pattern) && pattern[i] == str[j] {
+			// characters match
+			i++
+			j++
+			continue
+		}
+
+		if starIdx == -1 {
 			// no match found
 			return false
 		}
+		// there's a previous * wildcard, backtrack
+		i = starIdx + 1
+		matchIdx++
+		j = matchIdx
 	}
 
 	// check for remaining characters in the pattern
